@@ -77,6 +77,12 @@ func lockOpOf(c *ssa.CallCommon) (lockOp, bool) {
 	}
 	rt := typeKey(sc.Signature.Recv().Type())
 	if rt != "sync.Mutex" && rt != "sync.RWMutex" {
+		// a wrapper method whose whole body is one mutex operation on a field of its receiver (`func (s *T) lock() {
+		// s.mu.Lock() }`) is that operation
+		if op, ok := lockWrapperOp(sc); ok {
+			op.addr = c.Args[0]
+			return op, true
+		}
 		return lockOp{}, false
 	}
 	switch sc.Name() {
@@ -85,6 +91,53 @@ func lockOpOf(c *ssa.CallCommon) (lockOp, bool) {
 		return lockOp{}, false
 	}
 	return lockOp{id: lockIDOf(c.Args[0]), kind: sc.Name(), addr: c.Args[0]}, true
+}
+
+var lockWrapperCache = map[*ssa.Function]*lockOp{}
+
+func lockWrapperOp(sc *ssa.Function) (lockOp, bool) {
+	if r, ok := lockWrapperCache[sc]; ok {
+		if r == nil {
+			return lockOp{}, false
+		}
+		return *r, true
+	}
+	lockWrapperCache[sc] = nil
+	if sc.Blocks == nil || len(sc.Blocks) != 1 || len(sc.Params) != 1 || sc.Signature.Results().Len() != 0 {
+		return lockOp{}, false
+	}
+	var found *lockOp
+	for _, in := range sc.Blocks[0].Instrs {
+		switch x := in.(type) {
+		case *ssa.Call:
+			isc := x.Call.StaticCallee()
+			if isc == nil || isc.Signature.Recv() == nil || len(x.Call.Args) == 0 || found != nil {
+				return lockOp{}, false
+			}
+			irt := typeKey(isc.Signature.Recv().Type())
+			if irt != "sync.Mutex" && irt != "sync.RWMutex" {
+				return lockOp{}, false
+			}
+			switch isc.Name() {
+			case "Lock", "RLock", "Unlock", "RUnlock":
+			default:
+				return lockOp{}, false
+			}
+			fa, ok := x.Call.Args[0].(*ssa.FieldAddr)
+			if !ok || fa.X != ssa.Value(sc.Params[0]) {
+				return lockOp{}, false
+			}
+			found = &lockOp{id: fieldKeyAddr(fa), kind: isc.Name()}
+		case *ssa.FieldAddr, *ssa.Return, *ssa.DebugRef:
+		default:
+			return lockOp{}, false
+		}
+	}
+	if found == nil {
+		return lockOp{}, false
+	}
+	lockWrapperCache[sc] = found
+	return *found, true
 }
 
 // lockIDOf names the mutex an address denotes: "pkg.Type.field" for struct fields, "global:name" for package-level
@@ -129,6 +182,7 @@ type lockAnalysis struct {
 	internal map[*ssa.Function]bool // entry lockset derived from call sites
 	sites    map[*ssa.Function][]ssa.CallInstruction
 	syncLit  map[*ssa.Function]ssa.Instruction // function literal invoked synchronously at this instruction
+	paramCalled map[*ssa.Function]bool // literal handed to a helper that calls its function parameter: sites = those calls
 	pruned   []string
 	prunedE  map[[2]*ssa.BasicBlock]bool
 }
@@ -138,7 +192,7 @@ func (p *Prog) Locks() *lockAnalysis {
 		return p.lockA
 	}
 	la := &lockAnalysis{p: p, entry: map[*ssa.Function]lockset{}, top: map[*ssa.Function]bool{}, info: map[*ssa.Function]*lockInfo{},
-		internal: map[*ssa.Function]bool{}, sites: map[*ssa.Function][]ssa.CallInstruction{}, syncLit: map[*ssa.Function]ssa.Instruction{},
+		internal: map[*ssa.Function]bool{}, sites: map[*ssa.Function][]ssa.CallInstruction{}, syncLit: map[*ssa.Function]ssa.Instruction{}, paramCalled: map[*ssa.Function]bool{},
 		prunedE: map[[2]*ssa.BasicBlock]bool{}}
 	p.lockA = la
 	la.classify()
@@ -263,6 +317,29 @@ func (la *lockAnalysis) classify() {
 				// a literal handed directly to a call (Range callbacks, Once.Do, immediately used helpers) is assumed
 				// to be invoked synchronously by that call
 				if ci, ok := in.(*ssa.Call); ok && fn.Parent() != nil {
+					// handed to a repository helper that calls its function parameter (withLock(func(){…}), a
+					// visitor): the literal runs where the helper calls that parameter, with the locks held there
+					if sc := ci.Call.StaticCallee(); sc != nil && p.InUniverse(sc) && sc.Blocks != nil {
+						var inner []ssa.CallInstruction
+						for k, a := range ci.Call.Args {
+							if a != *op || k >= len(sc.Params) {
+								continue
+							}
+							par := sc.Params[k]
+							instrsOf(sc, func(in2 ssa.Instruction) {
+								if c2, ok := in2.(ssa.CallInstruction); ok && !c2.Common().IsInvoke() && p.origin(c2.Common().Value) == ssa.Value(par) {
+									if _, isGo := c2.(*ssa.Go); !isGo {
+										inner = append(inner, c2)
+									}
+								}
+							})
+						}
+						if len(inner) > 0 {
+							la.sites[fn] = append(la.sites[fn], inner...)
+							la.paramCalled[fn] = true
+							continue
+						}
+					}
 					if _, dup := la.syncLit[fn]; !dup {
 						la.syncLit[fn] = ci
 					} else {
@@ -276,6 +353,10 @@ func (la *lockAnalysis) classify() {
 		if f.Parent() != nil {
 			// literal: synchronous argument, immediately-invoked, or deferred/go'd directly
 			if _, ok := la.syncLit[f]; ok {
+				la.internal[f] = true
+				continue
+			}
+			if la.paramCalled[f] {
 				la.internal[f] = true
 				continue
 			}
